@@ -1,0 +1,36 @@
+//go:build verif
+
+// Machine-checked contracts for package store (read by /verif/bin/gvc; comment-only, adds no declarations).
+package store
+
+// ---- longest-prefix routing (C18) ----
+//
+// A pair (a, b) names prefix b of backend a. seen(a, b, i1, i2) are the pairs visited when the outer loop
+// is at backend i1 and the inner loop has completed prefix i2 of it (lexicographic order).
+
+//@ spec validPair(bs ref, a int, b int) bool = 0 <= a && a < len(bs) && 0 <= b && b < len(bs[a].PathPrefixes)
+//@ spec prefixAt(bs ref, a int, b int) string = bs[a].PathPrefixes[b]
+//@ spec idAt(bs ref, a int) string = bs[a].BackendID
+//@ pure matchAt(path string, bs ref, a int, b int) bool = hasPrefix(path, prefixAt(bs, a, b))
+//@ pure seen(a int, b int, i1 int, i2 int) bool = a < i1 || (a == i1 && b <= i2)
+//@ pure noneSeen(path string, bs ref, i1 int, i2 int) bool =
+//@   | forall_int(a, forall_int(b, validPair(bs, a, b) && seen(a, b, i1, i2) ==> !matchAt(path, bs, a, b)))
+//@ pure bestSeen(path string, bs ref, i1 int, i2 int, cm string, lp string) bool =
+//@   | exists_int(i, exists_int(j, validPair(bs, i, j) && seen(i, j, i1, i2) && matchAt(path, bs, i, j) && cm == idAt(bs, i) && lp == prefixAt(bs, i, j)))
+//@   | && forall_int(a, forall_int(b, validPair(bs, a, b) && seen(a, b, i1, i2) && matchAt(path, bs, a, b) ==> len(prefixAt(bs, a, b)) <= len(lp)))
+
+//@ func mostSpecificMatchingBackend props(C18,C17)
+//@   requires forall(i, 0, len(backends), backends[i] != nil && idAt(backends, i) != "")
+//@   assigns nothing
+//@   ensures[C18:none] r1 != nil <==> noneSeen(path, backends, len(backends), -1)
+//@   ensures[C18:longest] r1 == nil ==> exists_int(i, exists_int(j, validPair(backends, i, j) && matchAt(path, backends, i, j) && r0 == idAt(backends, i)
+//@   |   && forall_int(a, forall_int(b, validPair(backends, a, b) && matchAt(path, backends, a, b) ==> len(prefixAt(backends, a, b)) <= len(prefixAt(backends, i, j))))))
+//@   ensures[C17:id-of-input] r1 == nil ==> exists(i, 0, len(backends), r0 == idAt(backends, i))
+//@   loop 1
+//@     invariant[C18:o-range] -1 <= idx && idx < max(len(backends), 1) && (len(backends) == 0 ==> idx == -1)
+//@     invariant[C18:o-none] closestMatch == "" <==> noneSeen(path, backends, idx + 1, -1)
+//@     invariant[C18:o-best] closestMatch != "" ==> bestSeen(path, backends, idx + 1, -1, closestMatch, longestMatchingPath)
+//@   loop 2
+//@     invariant[C18:i-range] 0 <= idx1 && idx1 < len(backends) && b == backends[idx1] && -1 <= idx && idx < max(len(b.PathPrefixes), 1) && (len(b.PathPrefixes) == 0 ==> idx == -1)
+//@     invariant[C18:i-none] closestMatch == "" <==> noneSeen(path, backends, idx1, idx)
+//@     invariant[C18:i-best] closestMatch != "" ==> bestSeen(path, backends, idx1, idx, closestMatch, longestMatchingPath)
